@@ -8,6 +8,15 @@ inductive Forall2 {α β : Type} (R : α → β → Prop) : List α → List β 
   | nil : Forall2 R [] []
   | cons {a : α} {b : β} {as : List α} {bs : List β} : R a b → Forall2 R as bs → Forall2 R (a :: as) (b :: bs)
 
+theorem Forall2.imp {α β : Type} {R S : α → β → Prop} (h : ∀ a b, R a b → S a b) :
+    ∀ {l₁ : List α} {l₂ : List β}, Forall2 R l₁ l₂ → Forall2 S l₁ l₂
+  | _, _, .nil => .nil
+  | _, _, .cons hr ht => .cons (h _ _ hr) (Forall2.imp h ht)
+
+theorem Forall2.length_eq {α β : Type} {R : α → β → Prop} : ∀ {l₁ : List α} {l₂ : List β}, Forall2 R l₁ l₂ → l₁.length = l₂.length
+  | _, _, .nil => rfl
+  | _, _, .cons _ ht => by simp [Forall2.length_eq ht]
+
 namespace AList
 variable {β : Type}
 
@@ -91,6 +100,28 @@ theorem keys_set {l : AList β} {k : Id} {v : β} {x : Id} : x ∈ AList.keys (A
         · exact Or.inl h
         · exact Or.inr (Or.inl h)
         · exact Or.inr (Or.inr h)
+
+theorem lookup_set_self {l : AList β} {k : Id} {v : β} : AList.lookup (AList.set l k v) k = some v := by
+  induction l with
+  | nil => simp [AList.set, AList.lookup]
+  | cons e' t ih =>
+    obtain ⟨k', v'⟩ := e'
+    simp only [AList.set]
+    split
+    · rename_i hk; simp [AList.lookup, hk]
+    · rename_i hk; simp [AList.lookup, hk, ih]
+
+theorem lookup_set_ne {l : AList β} {k k' : Id} {v : β} (h : k ≠ k') : AList.lookup (AList.set l k v) k' = AList.lookup l k' := by
+  induction l with
+  | nil => simp [AList.set, AList.lookup, h]
+  | cons e' t ih =>
+    obtain ⟨k0, v0⟩ := e'
+    simp only [AList.set]
+    split
+    · rename_i hk
+      subst hk
+      simp [AList.lookup, h]
+    · simp only [AList.lookup, ih]
 
 theorem set_of_lookup_none {l : AList β} {k : Id} {v : β} (h : AList.lookup l k = none) : AList.set l k v = l ++ [(k, v)] := by
   induction l with
